@@ -266,6 +266,43 @@ Section GeneralFS.
     - left; reflexivity.
   Qed.
 
+  (* the shell holding the kept low-momentum part; nothing is emitted when that part is empty *)
+  Definition kept_head (s : shell) (ka : list Z) (kc : list (list N)) : list shell :=
+    match ka with
+    | [] => []
+    | _ => [mkShell (split_function_type (ftype s) ka) (region s) ka (exps s) kc]
+    end.
+
+  Lemma kept_head_cfuns : forall (s : shell) ka kc, length ka = length kc ->
+    shells_cfuns (kept_head s ka kc) = zip_am ka kc (exps s).
+  Proof.
+    intros s ka kc Hl. destruct ka as [|l r] eqn:Ek; [reflexivity|].
+    cbn [kept_head]. cbn [shells_cfuns flat_map]. rewrite app_nil_r.
+    apply shell_cfuns_zip. exact Hl.
+  Qed.
+
+  Lemma kept_head_shape : forall m (s : shell) ka kc,
+    Forall (fun l => (l <= m)%Z) ka -> Forall (spdf_shape m) (kept_head s ka kc).
+  Proof.
+    intros m s ka kc Hle. destruct ka as [|l r]; [constructor|].
+    cbn [kept_head]. constructor; [|constructor]. intros _; exact Hle.
+  Qed.
+
+  Lemma kept_head_wf : forall (s : shell) ka kc, wf_shell s -> 1 < length (am s) ->
+    length ka = length kc -> (forall c, In c kc -> In c (coefs s)) ->
+    wf_shells (kept_head s ka kc).
+  Proof.
+    intros s ka kc Hs El Hlk Hsub. destruct ka as [|l0 r0] eqn:Ek; [constructor|].
+    cbn [kept_head]. constructor; [|constructor].
+    destruct Hs as [Hr [[Hcne Hnz] Ha]].
+    unfold FSDefs.wf_shell, rect, nz_cols, am_ok in *; cbn.
+    rewrite Forall_forall in Hr, Hnz. repeat split.
+    - apply Forall_forall; auto.
+    - destruct kc; [discriminate|discriminate].
+    - apply Forall_forall; auto.
+    - destruct r0 as [|l2 r]; [left; reflexivity|right; cbn in *; lia].
+  Qed.
+
   Lemma unc_spdf_gen : forall m shs news, wf_shells shs ->
     exists out, unc_spdf_shells m shs news = inr out /\
       Permutation (shells_cfuns out) (shells_cfuns (news ++ shs)) /\
@@ -281,29 +318,22 @@ Section GeneralFS.
         { destruct Hs as [_ [_ [Ha|[_ Ha]]]]; lia. }
         destruct (split_fused_spec m s (coefs s) (am s) [] [] [] Hlen)
           as [ka [kc [out' [Hsp [Hlk [Hp [Hle [Hsub [Hout Hne]]]]]]]]].
-        rewrite Hsp. cbn.
-        destruct (IH (mkShell (split_function_type (ftype s) ka) (region s) ka (exps s) kc :: news ++ out') Ht)
+        rewrite Hsp. cbn [bind app]. fold (kept_head s ka kc).
+        destruct (IH (kept_head s ka kc ++ (news ++ out')) Ht)
           as [out [Ho [Hperm [Hshape Hwfo]]]].
         exists out. split; [exact Ho|]. split; [|split].
         * eapply Permutation_trans; [exact Hperm|].
-          rewrite <- app_comm_cons, !shells_cfuns_cons, !shells_cfuns_app, shells_cfuns_cons.
-          rewrite shell_cfuns_zip by exact Hlk. rewrite (shell_cfuns_fused s El).
+          rewrite !shells_cfuns_app, shells_cfuns_cons.
+          rewrite kept_head_cfuns by exact Hlk. rewrite (shell_cfuns_fused s El).
           rewrite <- !app_assoc.
           eapply Permutation_trans; [apply Permutation_app_swap_app|].
           apply Permutation_app_head. rewrite !app_assoc. apply Permutation_app_tail. exact Hp.
-        * intros Hn. apply Hshape. constructor; [intros _; exact Hle|].
+        * intros Hn. apply Hshape. apply Forall_app; split; [apply kept_head_shape; exact Hle|].
           apply Forall_app; split; [exact Hn|].
           eapply Forall_impl; [|exact Hout]. intros x [ft [l [c [_ ->]]]] Hx. cbn in Hx. lia.
         * intros Hn Hlow. inversion Hlow as [|? ? Hls Hlt]; subst. apply Hwfo; [|exact Hlt].
-          constructor; [|apply Forall_app; split; [exact Hn|]].
-          -- specialize (Hne (Hls El)).
-             destruct Hs as [Hr [[Hcne Hnz] Ha]].
-             unfold FSDefs.wf_shell, rect, nz_cols, am_ok in *; cbn.
-             rewrite Forall_forall in Hr, Hnz. repeat split.
-             ++ apply Forall_forall; auto.
-             ++ destruct kc; [destruct ka; [congruence|discriminate]|discriminate].
-             ++ apply Forall_forall; auto.
-             ++ destruct ka as [|l1 [|l2 r]]; [congruence|left; reflexivity|right; cbn in *; lia].
+          apply Forall_app; split; [|apply Forall_app; split; [exact Hn|]].
+          -- apply kept_head_wf; assumption.
           -- eapply Forall_impl; [|exact Hout]. intros x Hx. eapply single_of_wf; eauto.
       + apply Nat.ltb_ge in El.
         destruct (IH (news ++ [s]) Ht) as [out [Ho [Hperm [Hshape Hwfo]]]].
